@@ -25,7 +25,7 @@ var R = hx.NewRecorder("C04", "cases = (message, write partition) / (operation h
 	"non-trivial = message length >= 1 and (>= 2 writes or a Sum before the end or a derived construction); distinct by hash of (message, plan)")
 
 func TestMain(m *testing.M) {
-	R.Require("len=55", "len=56", "len=63", "len=64", "len=119", "len=120", "empty_write", "sum_prefix_nospare", "sum_prefix_spare", "reset_mid")
+	R.Require("len=55", "len=56", "len=63", "len=64", "len=119", "len=120", "empty_write", "sum_prefix_nospare", "sum_prefix_spare", "reset_mid", "stream>=2MiB")
 	R.Assume("ref/rsm3 reproduces the GM/T 0004 example digests (checked by TestRefSelf and again here)")
 	hx.Main(m, R)
 }
@@ -328,11 +328,41 @@ func TestC04_HMAC_PBKDF2(t *testing.T) {
 // Multi-megabyte streams written in generated chunkings (thorough: bigger).
 func TestC04_Streams(t *testing.T) {
 	refSelf(t)
-	sizes := []int{1 << 20}
+	// sizes whose BIT length needs the fourth byte of the 64-bit length field (>= 2 MiB = 2^24 bits), thorough also the
+	// fifth (>= 512 MiB = 2^32 bits; hashed once, below)
+	sizes := []int{1 << 20, 2<<20 + 300, 5<<20 + 17}
 	if hx.Thorough() {
-		sizes = []int{1 << 20, 3<<20 + 17, 16 << 20}
+		sizes = []int{1 << 20, 3<<20 + 17, 16 << 20, 33<<20 + 5}
 	}
-	hx.Check(t, hx.N(3, 6), func(t *rapid.T) {
+	{
+		// the incremental reference agrees with the one-shot reference
+		chk := make([]byte, 200000)
+		gen.Fill(chk, 7)
+		r := rsm3.New()
+		r.Write(chk[:63])
+		r.Write(chk[63:70000])
+		r.Write(chk[70000:])
+		if !bytes.Equal(r.Sum(nil), rsm3.Sum(chk)) {
+			t.Fatalf("harness: incremental reference SM3 disagrees with the one-shot reference")
+		}
+	}
+	if hx.Thorough() && hx.Shard() == 0 {
+		// 2^32 + 2^27 + 8*77 bits: written in 1 MiB pieces of a repeating pattern, compared with the reference fed the same way
+		h, r := sm3.New(), rsm3.New()
+		piece := make([]byte, 1<<20)
+		gen.Fill(piece, 0xC04)
+		for i := 0; i < 512+16; i++ {
+			h.Write(piece)
+			r.Write(piece)
+		}
+		h.Write(piece[:77])
+		r.Write(piece[:77])
+		if got, want := h.Sum(nil), r.Sum(nil); !bytes.Equal(got, want) {
+			t.Fatalf("stream of 528 MiB + 77 bytes: got %x want %x", got, want)
+		}
+		R.Case(true, hx.HashKey("stream", "528MiB"), "stream>=512MiB")
+	}
+	hx.Check(t, hx.N(4, 8), func(t *rapid.T) {
 		size := rapid.SampledFrom(sizes).Draw(t, "size") + rapid.IntRange(-70, 70).Draw(t, "delta")
 		m := make([]byte, size)
 		gen.Fill(m, rapid.Uint64().Draw(t, "seed"))
@@ -357,7 +387,11 @@ func TestC04_Streams(t *testing.T) {
 		if got, want := h.Sum(nil), rsm3.Sum(m); !bytes.Equal(got, want) {
 			t.Fatalf("stream size=%d: got %x want %x", size, got, want)
 		}
-		R.Case(true, hx.HashKey("stream", size, writes), "stream>=1MiB")
+		cl := "stream>=1MiB"
+		if size >= 2<<20 {
+			cl = "stream>=2MiB"
+		}
+		R.Case(true, hx.HashKey("stream", size, writes), cl)
 	})
 }
 
